@@ -40,7 +40,9 @@ FMT_SPECS = [None, dict(color='RED'), dict(color='GREEN', bold=True), dict(color
              # colour number 0 (black), as foreground and as background
              dict(color=0), dict(color=None, bg_color=0, bold=True),
              # an rgb triple as background
-             dict(color=None, bg_color=(5, 0, 1))]
+             dict(color=None, bg_color=(5, 0, 1)),
+             # the same look as an earlier formatter, its effects named in another order
+             dict(color=None, crossed=True, underline=True), dict(bold=True, color='GREEN')]
 _FMTS = None
 
 
@@ -149,6 +151,11 @@ def run_history(ctx, rng, script=None):
                     fill = rng.choice(['', '', '*', '0', ' ', '<', 'x', '-'])
                     al = rng.choice(['<', '>', '^']) if fill else rng.choice(['', '<', '>', '^'])
                     w = rng.choice(['', str(rng.randint(1, la + 4)), '0'])
+                    if w and w != '0' and fill and al and rng.random() < 0.25:
+                        # behind an explicit fill and alignment a width may be written with a leading zero: the fill
+                        # stays what it is.  (Without them "05" is str's zero FLAG, which the documented grammar of
+                        # CHText formats - [[fill]align][width][type] - does not have: not generated)
+                        w = '0' + w
                     if w and rng.random() < 0.08:
                         # (str accepts any decimal digits in a width)
                         w = w.translate({ord('0') + k: 0x0660 + k for k in range(10)}) if rng.random() < 0.5 \
